@@ -1,7 +1,168 @@
 package main
 
-import "fmt"
+import (
+	"fmt"
+	"go/types"
+	"sort"
+	"strings"
 
+	"golang.org/x/tools/go/ssa"
+)
+
+// structCheck decides a structural obligation on the SSA / static call graph.
+//
+//	disjoint_fields T readers=f,g,... writers=h,k,... shared=a,b,...
+//
+// The functions named under readers (methods of *T or functions of the package, with everything
+// they call statically inside the package) and those under writers access disjoint sets of fields of
+// T, except the fields listed as shared - and a shared field is never stored to by either group
+// (it is set by the constructor only).  This is the footprint half of "two goroutines, one running
+// the readers and one the writers, cannot interfere"; objects reachable through shared pointer
+// fields need their own synchronisation (an assumption that the check prints).
 func (w *World) structCheck(sc *StructCheck) (structResult, error) {
+	switch sc.Kind {
+	case "disjoint_fields":
+		return w.disjointFields(sc)
+	}
 	return structResult{}, fmt.Errorf("%s:%d: unknown struct check kind %q", sc.File, sc.Line, sc.Kind)
+}
+
+func (w *World) disjointFields(sc *StructCheck) (structResult, error) {
+	name := sc.Name
+	if name == "" {
+		name = "disjoint_fields"
+	}
+	res := structResult{Name: "struct." + name}
+	if len(sc.Args) < 3 {
+		return res, fmt.Errorf("%s:%d: disjoint_fields T readers=.. writers=.. [shared=..]", sc.File, sc.Line)
+	}
+	sp := w.SSAPkgs[sc.Pkg]
+	if sp == nil {
+		return res, fmt.Errorf("%s:%d: package %s not loaded", sc.File, sc.Line, sc.Pkg)
+	}
+	tn, _ := sp.Pkg.Scope().Lookup(sc.Args[0]).(*types.TypeName)
+	if tn == nil {
+		return res, fmt.Errorf("%s:%d: no type %s", sc.File, sc.Line, sc.Args[0])
+	}
+	st, ok := tn.Type().Underlying().(*types.Struct)
+	if !ok {
+		return res, fmt.Errorf("%s:%d: %s is not a struct", sc.File, sc.Line, sc.Args[0])
+	}
+	groups := map[string][]string{}
+	for _, a := range sc.Args[1:] {
+		kv := strings.SplitN(a, "=", 2)
+		if len(kv) != 2 {
+			return res, fmt.Errorf("%s:%d: bad argument %q", sc.File, sc.Line, a)
+		}
+		groups[kv[0]] = strings.Split(kv[1], ",")
+	}
+	find := func(n string) *ssa.Function {
+		for f := range w.AllFuncs {
+			if f.Pkg == sp && (f.Name() == n) {
+				return f
+			}
+		}
+		return nil
+	}
+	type acc struct{ read, write map[string]bool }
+	footprint := func(names []string) (acc, error) {
+		a := acc{map[string]bool{}, map[string]bool{}}
+		seen := map[*ssa.Function]bool{}
+		var visit func(f *ssa.Function)
+		visit = func(f *ssa.Function) {
+			if f == nil || seen[f] || f.Blocks == nil {
+				return
+			}
+			seen[f] = true
+			for _, b := range f.Blocks {
+				for _, in := range b.Instrs {
+					switch x := in.(type) {
+					case *ssa.FieldAddr:
+						if types.Identical(derefType(x.X.Type()), tn.Type()) {
+							fld := st.Field(x.Field).Name()
+							stored := false
+							for _, ref := range *x.Referrers() {
+								if s, ok := ref.(*ssa.Store); ok && s.Addr == x {
+									stored = true
+								}
+							}
+							if stored {
+								a.write[fld] = true
+							} else {
+								a.read[fld] = true
+							}
+						}
+					case ssa.CallInstruction:
+						if c := x.Common().StaticCallee(); c != nil && c.Pkg == sp {
+							visit(c)
+						}
+					case *ssa.MakeClosure:
+						if c, ok := x.Fn.(*ssa.Function); ok {
+							visit(c)
+						}
+					}
+				}
+			}
+		}
+		for _, n := range names {
+			f := find(n)
+			if f == nil {
+				return a, fmt.Errorf("%s:%d: no function %s in %s", sc.File, sc.Line, n, sc.Pkg)
+			}
+			visit(f)
+		}
+		return a, nil
+	}
+	rd, err := footprint(groups["readers"])
+	if err != nil {
+		res.Detail = err.Error() // a renamed/removed function: the claim can no longer be stated
+		return res, nil
+	}
+	wr, err := footprint(groups["writers"])
+	if err != nil {
+		res.Detail = err.Error()
+		return res, nil
+	}
+	shared := map[string]bool{}
+	for _, s := range groups["shared"] {
+		shared[s] = true
+	}
+	var bad []string
+	all := func(a acc) map[string]bool {
+		m := map[string]bool{}
+		for k := range a.read {
+			m[k] = true
+		}
+		for k := range a.write {
+			m[k] = true
+		}
+		return m
+	}
+	ra, wa := all(rd), all(wr)
+	for f := range ra {
+		if wa[f] && !shared[f] {
+			bad = append(bad, "field "+f+" is accessed by both groups and is not declared shared")
+		}
+	}
+	for f := range shared {
+		if rd.write[f] || wr.write[f] {
+			bad = append(bad, "shared field "+f+" is stored to (it must be set by the constructor only)")
+		}
+	}
+	sort.Strings(bad)
+	keys := func(m map[string]bool) string {
+		var ks []string
+		for k := range m {
+			ks = append(ks, k)
+		}
+		sort.Strings(ks)
+		return strings.Join(ks, ",")
+	}
+	res.OK = len(bad) == 0
+	res.Detail = fmt.Sprintf("readers{%s} touch {%s}; writers{%s} touch {%s}; shared (read-only after construction; the objects they point to synchronise themselves): {%s}",
+		strings.Join(groups["readers"], ","), keys(ra), strings.Join(groups["writers"], ","), keys(wa), keys(shared))
+	if !res.OK {
+		res.Detail = strings.Join(bad, "; ") + " -- " + res.Detail
+	}
+	return res, nil
 }
